@@ -11,7 +11,7 @@ COMMON_ASSUME = [
     "the claim is the stated finite alphabet and depth, not all inputs",
 ]
 
-HOOK_COMMITS = []
+HOOK_COMMITS = ["55eb3a4f", "0e93fea4", "d333c875", "9604a163", "adfc0bbc"]
 NOT_APPLICABLE_REASON = {}
 
 CHECKS = {
@@ -52,7 +52,7 @@ CHECKS = {
 # per-property fragments (one file per property, so several people can work in parallel)
 import glob as _glob, os as _os
 # a fragment only counts once the coordinator has reviewed it and listed it here
-ENABLED_FRAGMENTS = ["C15"]
+ENABLED_FRAGMENTS = ["C13", "C15"]
 for _f in sorted(_glob.glob(_os.path.join(_os.path.dirname(_os.path.abspath(__file__)), "checks.d", "C*.py"))):
     if _os.path.basename(_f)[:-3] not in ENABLED_FRAGMENTS and not _os.environ.get("VERIF_ALL_FRAGMENTS"):
         continue
